@@ -6,16 +6,21 @@ EXTENDS Phase, IOUtils
 Cases == ndJsonDeserialize(IOEnv.CASES)
 VARIABLE i
 PsHt == {<<"ps", "Z">>, <<"ht", "Z">>}
+RemoveAt(s, at) == [k \in 1..(Len(s) - 1) |-> IF k < at THEN s[k] ELSE s[k + 1]]
 RecVerdict(c, k) ==
   LET a == c.inp[k] b == c.out[k]
-      ps == SelectSeq(b.opt, LAMBDA f : f[1] = "ps" /\ f[2] = "Z")
-      ht == SelectSeq(b.opt, LAMBDA f : f[1] = "ht" /\ f[2] = "Z")
+      P == {j \in 1..Len(b.opt) : b.opt[j][1] = "ps" /\ b.opt[j][2] = "Z"}
+      H == {j \in 1..Len(b.opt) : b.opt[j][1] = "ht" /\ b.opt[j][2] = "Z"}
+      \* the record GAINS one ps:Z and one ht:Z: removing one of each must leave the input's optional fields
+      \* (an input that already carries ps:Z / ht:Z keeps them)
+      gained == {<<p, h>> \in P \X H :
+                   LET rest == IF p < h THEN RemoveAt(RemoveAt(b.opt, h), p) ELSE RemoveAt(RemoveAt(b.opt, p), h) IN rest = a.opt}
   IN IF b.ncols < 12 \/ b.empty_fields THEN "malformed_line"
      ELSE IF b.cols # a.cols THEN (IF b.cols[5] # a.cols[5] THEN "strand_altered" ELSE "mandatory_column_altered")
      ELSE IF \E j \in 1..Len(b.opt) : ~FieldShapeOK(b.opt[j]) THEN "malformed_optional_field"
-     ELSE IF Without(b.opt, PsHt) # a.opt THEN "optional_fields_altered"
-     ELSE IF Len(ps) # 1 \/ Len(ht) # 1 THEN "ps_ht_not_exactly_once"
-     ELSE IF <<ps[1][3], ht[1][3]>> \notin Allowed(c.tsv, a.cols[1]) THEN "annotation_not_from_tsv"
+     ELSE IF P = {} \/ H = {} THEN "ps_ht_not_gained"
+     ELSE IF gained = {} THEN "optional_fields_altered"
+     ELSE IF ~\E g \in gained : <<b.opt[g[1]][3], b.opt[g[2]][3]>> \in Allowed(c.tsv, a.cols[1]) THEN "annotation_not_from_tsv"
      ELSE "ok"
 Verdict(c) ==
   IF c.status # "ok" THEN "phase_failed_" \o c.status
